@@ -188,17 +188,30 @@ def patch(name, lab, ename, tier, seed, out):
     nb = len(bfac)
     sig0 = f"C06|patch|{ename}|"
     xq = np.asarray(basis.global_coordinates())
+    cacheA = {}
     for mono in ex.monomials_total(dim, k):
         U = Poly.monomial(dim, mono)
         gradU = [U.diff(i) for i in range(dim)]
         lapU = sum((gradU[i].diff(i) for i in range(dim)), Poly(dim))
         ufun = lambda X, U=U: U.evalf(X)          # noqa: E731
-        for problem in ('poisson', 'reaction'):
-            F = (-lapU) if problem == 'poisson' else (U - lapU)
-            A = A0 if problem == 'poisson' else A0 + M0
+        for problem in ('poisson', 'reaction') + (('aniso',) if dim >= 2 and kind != 'wedge' else ()):
+            if problem == 'aniso':
+                # non-symmetric constant diffusion tensor written with the integrand helpers mul / dot / grad
+                from skfem.helpers import mul, dot, grad
+                Kc = np.array([[2., 1., 0.], [.5, 3., .25], [0., -.5, 1.5]])[:dim, :dim]
+                flux = [sum((gradU[j] * Fr(float(Kc[i, j])) for j in range(dim)), Poly(dim)) for i in range(dim)]
+                F = -sum((flux[i].diff(i) for i in range(dim)), Poly(dim))
+                if 'aniso' not in cacheA:
+                    cacheA['aniso'] = BilinearForm(lambda u, v, w: dot(mul(Kc[:, :, None, None] + 0 * w.x[0], grad(u)),
+                                                                       grad(v))).assemble(basis)
+                A = cacheA['aniso']
+            else:
+                flux = gradU
+                F = (-lapU) if problem == 'poisson' else (U - lapU)
+                A = A0 if problem == 'poisson' else A0 + M0
             fvec = LinearForm(lambda v, w, F=F: F.evalf(w.x) * v).assemble(basis)
             for Dsel in boundary_splits(nb, tier):
-                if problem == 'poisson' and len(Dsel) == 0:
+                if problem in ('poisson', 'aniso') and len(Dsel) == 0:
                     continue
                 Dfac = [bfac[i] for i in Dsel]
                 Nfac = [j for j in bfac if j not in Dfac]
@@ -215,7 +228,7 @@ def patch(name, lab, ename, tier, seed, out):
                     b = fvec.copy()
                     if Nfac and kind != 'wedge':
                         fbN = FacetBasis(m, ent.make(), facets=np.array(Nfac, dtype=np.int32))
-                        b = b + LinearForm(lambda v, w: sum(gradU[i].evalf(w.x) * w.n[i] for i in range(dim)) * v).assemble(fbN)
+                        b = b + LinearForm(lambda v, w: sum(flux[i].evalf(w.x) * w.n[i] for i in range(dim)) * v).assemble(fbN)
                     elif Nfac:
                         continue
                     D, xD = dirichlet_values(m, kind, ent, basis, Dfac, ufun)
@@ -223,6 +236,11 @@ def patch(name, lab, ename, tier, seed, out):
                         x = xD
                     elif len(D) == 0:
                         x = solve(A, b)
+                    elif (len(Dsel) + sum(mono)) % 3 == 2:
+                        # the same constraint imposed by enforce() on the SAME assembled matrix (which must stay intact for
+                        # the following boundary splits)
+                        from skfem import enforce
+                        x = solve(*enforce(A, b, x=xD, D=D))
                     elif len(Dfac) >= 2 and len(Dsel) % 2 == 0:
                         # the same Dirichlet set named as a dictionary of per-facet views (they overlap at shared vertices)
                         Dd = {f'f{j}': basis.get_dofs(np.array([j], dtype=np.int32)) for j in Dfac}
@@ -363,6 +381,18 @@ def projection(name, lab, ename, tier, seed, out):
                     f"{np.abs(y[Dr] - e[Dr]).max():.3e}")
                 break
             out.nt((name, lab, ename, rl, int(k)))
+            if int(k) % 4 == 0:
+                # complex coefficient vectors
+                ec = e * (1.0 + 2.0j)
+                try:
+                    yc = br.project(br.interpolate(ec), dtype=np.complex128)
+                    if np.abs(np.asarray(yc)[Dr] - ec[Dr]).max() > 1e-8:
+                        bad('project-identity-complex', f"complex project(interpolate((1+2j) e_{k})) on region '{rl}' differs by "
+                            f"{np.abs(np.asarray(yc)[Dr] - ec[Dr]).max():.3e}")
+                        break
+                except Exception as ex_:
+                    bad('project-complex-exception', f"region {rl}: {ex_!r}")
+                    break
     # boundary parts: H1 nodal elements
     if kind != 'wedge' and ent.family == 'H1' and ent.nodal and ent.wrapper is None:
         bfac = [int(j) for j in m.boundary_facets()]
@@ -378,6 +408,13 @@ def projection(name, lab, ename, tier, seed, out):
                 e = np.zeros(N)
                 e[k] = 1.0
                 out.ev()
+                if int(k) % 3 == 0:
+                    ec = e * (1.0 + 2.0j)
+                    yc = np.asarray(fb.project(fb.interpolate(ec), dtype=np.complex128))
+                    if np.abs(yc[Df] - ec[Df]).max() > 1e-8:
+                        bad('boundary-project-identity-complex', f"complex FacetBasis.project on {pl} differs from (1+2j) e_{k} by "
+                            f"{np.abs(yc[Df] - ec[Df]).max():.3e}")
+                        break
                 y = fb.project(fb.interpolate(e))
                 if np.abs(y[Df] - e[Df]).max() > 1e-8:
                     bad('boundary-project-identity', f"FacetBasis.project(interpolate(e_{k})) on {pl} differs from e_{k} by "
